@@ -40,6 +40,9 @@ def Date.lt (a b : Date) : Prop :=
 
 def Date.le (a b : Date) : Prop := a = b ∨ a.lt b
 
+instance (a b : Date) : Decidable (a.lt b) := by unfold Date.lt; exact inferInstance
+instance (a b : Date) : Decidable (a.le b) := by unfold Date.le; exact inferInstance
+
 /-- milliseconds since midnight -/
 def Time.toMs (t : Time) : Nat := ((t.h * 60 + t.mi) * 60 + t.s) * 1000 + t.ms
 
@@ -49,5 +52,7 @@ def Time.Valid (t : Time) : Prop := t.h < 24 ∧ t.mi < 60 ∧ t.s < 60 ∧ t.ms
 /-- chronological order on date-times -/
 def DateTime.le (a b : DateTime) : Prop :=
   a.date.lt b.date ∨ (a.date = b.date ∧ a.time.toMs ≤ b.time.toMs)
+
+instance (a b : DateTime) : Decidable (a.le b) := by unfold DateTime.le; exact inferInstance
 
 end Dates
